@@ -4,7 +4,7 @@ From Coq Require Import List String QArith.
 From Coq Require Import Floats.PrimFloat.
 From PAFCommon Require Import PyNum.
 From PAFC01 Require Import ModelTree.
-From PAFC12 Require Import Gen Model Proofs Proofs2 Proofs3 Proofs4 Proofs5 Proofs6 Proofs7.
+From PAFC12 Require Import Gen Model Proofs Proofs2 Proofs3 Proofs4 Proofs5 Proofs6 Proofs7 Proofs8 Proofs9.
 Import ListNotations.
 Local Open Scope string_scope.
 Local Open Scope list_scope.
@@ -45,8 +45,11 @@ Proof.
   - intros k e w [H|[H|[]]] E; inversion H; subst; inversion E; subst; simpl; discriminate.
 Qed.
 
-(* default widths: parameter 0 (last place: inside the arithmetic prior -> class float, default Relative 0.5, old
-   limits), parameter 1 (last place h.a -> G2.a: Absolute 0.25 from its own modifier, limits -11..11).
+(* default widths.  Parameter 0 is shared between the tuple member g.pos.pos_1 (configured T2.pos_1) and the operand of
+   the arithmetic prior h.b; the code takes class float (child arithmetic prior wins) and the operand's name, finds no
+   configuration and uses the default Relative 0.5 with the old limits: here that happens to be the (unconfigured)
+   operand place; see C12_config_own_refuted for a shared prior that gets the configuration of NO place of its own.
+   Parameter 1 (g.c and h.a; last place h.a -> G2.a): Absolute 0.25 from its own modifier, limits -11..11.
    The tuple constant moves behind the prior, nothing else changes. *)
 Example wm_default :
   qpass (-1000) 1000 wcfg wspecs (MMeans None None false [1 # 2; 3]) wm =
@@ -123,3 +126,10 @@ Example wown_tuple_member :
   occ 0 (walk Q wown) = [(["g"] ++ "pos" :: ["pos_1"], 0%nat)] /\ occ 1 (walk Q wown) = [(["g"] ++ "c" :: [], 1%nat)] /\
   class_of Q 0 wown = Some "T2" /\ cfg_name ["g"; "pos"; "pos_1"] = Ok "pos_1" /\ class_of Q 1 wown = Some "T2".
 Proof. vm_compute. repeat split; reflexivity. Qed.
+
+(* hypotheses of C12_total_limits / C12_own_limits hold for wm (both tightenings succeed) *)
+Example wm_total_limits_hyp :
+  forall i d dl, (i < prior_count Q wm)%nat ->
+  exists s, lderive_limits Q (qleaves (-1000) 1000) wspecs (nth i (ordered_ids Q wm) d) (nth i [((-1) # 2, 3); (1, 2)] dl) = Ok s.
+Proof. intros i d dl Hi. destruct i as [|[|i]]; [eexists; vm_compute; reflexivity|eexists; vm_compute; reflexivity|].
+  exfalso. vm_compute in Hi. repeat apply le_S_n in Hi. inversion Hi. Qed.
